@@ -23,6 +23,9 @@ inductive PClass
   | mutDyn         -- `&mut dyn core::fmt::Debug`: a `&mut` to a trait object (no lifetime spelled out: matched like any `&mut`)
   | mutImpossible  -- `&mut Vec<&'static u32>`: a `&mut` whose pointee mentions a lifetime
   | slice          -- `&[u32]`
+  | genT           -- `T`, the trait's type parameter
+  | genU           -- `U`, the method's type parameter
+  | implInto (k : Nat)   -- `impl Into<u32> + 'static`, the k-th impl-Trait parameter of the method (named `ImplTrait{k}` by the macro)
   deriving Repr, DecidableEq, Inhabited
 
 structure Param where
@@ -49,6 +52,10 @@ structure MethodShape where
   hasDefault : Bool := false
   unmock : Unmock := .none
   api : Api := .modul "TMock"
+  /-- the trait has a type parameter `T` -/
+  traitGen : Bool := false
+  /-- the method has a type parameter `U` -/
+  methodGen : Bool := false
   deriving Repr
 
 def isPolonius : Recv → Bool
@@ -84,11 +91,36 @@ def delegateCtor : Recv → String
   | .pinMut => s!"<{recvTy .pinMut}as::unimock::private::DelegateToDefaultImpl>::to_delegator(::core::pin::Pin::new(__self))"
   | r => s!"<{recvTy r}as::unimock::private::DelegateToDefaultImpl>::to_delegator(self)"
 
-def mockFnPath (s : MethodShape) : String :=
+/-- names of the impl-Trait type parameters the macro introduces, in parameter order -/
+def implNames (ps : List Param) : List String :=
+  ps.filterMap fun p => match p.cls with | .implInto k => some s!"ImplTrait{k}" | _ => none
+
+/-- type parameters of the generic `MockFn` struct: the trait's, the method's, then the impl-Trait ones -/
+def genericNames (s : MethodShape) : List String :=
+  (if s.traitGen then ["T"] else []) ++ (if s.methodGen then ["U"] else []) ++ implNames s.params
+
+def isTypeGeneric (s : MethodShape) : Bool := !(genericNames s).isEmpty
+
+/-- the identifier the generic struct is named after -/
+def apiIdent (s : MethodShape) : String :=
   match s.api with
+  | .flat i => i
+  | _ => s.name
+
+/-- the type `MockFn` is implemented for -/
+def mockFnPath (s : MethodShape) : String :=
+  if isTypeGeneric s then s!"__Generic{apiIdent s}<{",".intercalate (genericNames s)}>"
+  else match s.api with
   | .modul m => s!"{m}::{s.name}"
   | .flat i => i
   | .hidden => s!"UnimockHidden__{s.name}"
+
+/-- the type named in `eval::<..>`: impl-Trait parameters are left to inference (`_`) -/
+def evalMockFnPath (s : MethodShape) : String :=
+  if isTypeGeneric s then
+    let names := (if s.traitGen then ["T"] else []) ++ (if s.methodGen then ["U"] else []) ++ (implNames s.params).map fun _ => "_"
+    s!"__Generic{apiIdent s}<{",".intercalate names}>"
+  else mockFnPath s
 
 def dotAwait (s : MethodShape) : Bool := s.isAsync || s.rpit
 
@@ -124,7 +156,7 @@ def genMethod (s : MethodShape) : MethodIR :=
       | _ => none
     polonius := pol
     evalSelf := selfRef s.recv
-    mockFn := mockFnPath s
+    mockFn := evalMockFnPath s
     evalParams := s.params.map evalParam
     rebind := if pol then some (s.params.map fnParam) else none
     exitArgs := if pol then some (s.params.map fnParam) else none
@@ -175,6 +207,9 @@ def inputType : PClass → String
   | .mutDyn => "&'__imutdyncore::fmt::Debug"
   | .mutImpossible => impossible
   | .slice => "&'__i[u32]"
+  | .genT => "T"
+  | .genU => "U"
+  | .implInto k => s!"ImplTrait{k}"
 
 /-- `try_debug_expr`: dereference down to the value, `&*` through `&mut`, slices are debugged as they are -/
 def debugExpr (p : Param) : String :=
@@ -186,6 +221,7 @@ def debugExpr (p : Param) : String :=
   | .mutDyn => s!"(&*{p.name}).unimock_try_debug()"
   | .mutImpossible => s!"(&*{p.name}).unimock_try_debug()"
   | .slice => s!"{p.name}.unimock_try_debug()"
+  | .genT | .genU | .implInto _ => s!"{p.name}.unimock_try_debug()"
 
 def tupled (xs : List String) : String :=
   match xs with
@@ -215,6 +251,9 @@ def answerParamType : PClass → String
   | .mutDyn => "&mutdyncore::fmt::Debug"
   | .mutImpossible => "&mutVec<&'staticu32>"
   | .slice => "&[u32]"
+  | .genT => "T"
+  | .genU => "U"
+  | .implInto k => s!"ImplTrait{k}"
 
 /-- the receiver as the answer function receives it -/
 def answerRecvType : Recv → String
